@@ -205,7 +205,7 @@ INFO = {
                 "re-assignment, folding singles into ranges and splitting ranges). Every emitted table is parsed back, "
                 "searched with the library's binary_search_by idiom over precis_core::Codepoints at every entry/truth "
                 "boundary (every code point when an anomaly is seen) and its denotation compared exactly with the ground "
-                "truth from the harness' own UCD parser; some cases are also compiled with rustc; every third case runs the build a second time in the same "
+                "truth from the harness' own UCD parser (entries may be Codepoints::Single/Range in either range spelling or plain (first, last, value) triples; a table in a form the parser cannot read makes the run inconclusive); some cases are also compiled with rustc (the emitted files alone must compile; the table checksums of a compiled driver must agree with the text parser); every third case runs the build a second time in the same "
                 "directory on a same-length rewrite of UnicodeData.txt. Non-trivial = distinct "
                 "inputs with a range adjacent to a differently valued entry (or a pinned input).",
         "floor_quick": 100,
@@ -237,7 +237,7 @@ INFO = {
                 "inserted, beyond U+10FFFF, broken or unknown property, 'or' without operands, wrong separator, empty line, long multi-byte text in the code point or property column) "
                 "must give Err with the 1-based line number; reversed ranges / lower-case hex only for 'no panic'; a 70,000-row "
                 "file (line numbers beyond 65,535) with rows of up to 290 KB; code point fields of 9-16 hex digits; the "
-                "registry snapshot itself row by row against the own parser. Non-trivial = distinct lines / files.",
+                "registry snapshot itself row by row against the own parser. Descriptions read through the line parser are compared up to their line terminator (kept or stripped); for a line that is not UTF-8 an error with no or with the right line number is accepted. Non-trivial = distinct lines / files.",
         "floor_quick": 100000,
         "technique": "runtime monitoring: round-trip oracle over generated well-formed rows and negative oracle over damaged rows",
         "assumptions": COMMON,
